@@ -433,7 +433,7 @@ Lemma vsum_shift dx dy dz cs :
   let '(a, b, d) := vsum RO cs in (a + Nof cs * dx, b + Nof cs * dy, d + Nof cs * dz).
 Proof.
   induction cs as [|[[x y] z] cs IH].
-  - cbn. tup; ring.
+  - unfold Nof. cbn. tup; ring.
   - cbn [map]. rewrite Nof_cons, !vsum_cons, IH. destruct (vsum RO cs) as [[a b] d]. red5. tup; ring.
 Qed.
 Lemma vsum_perm cs cs' : Permutation cs cs' -> vsum RO cs = vsum RO cs'.
@@ -463,7 +463,7 @@ Lemma centroid_shift d cs : cs <> [] -> centroid RO (map (vshift RO d) cs) = vsh
 Proof.
   intros H. destruct d as [[dx dy] dz]. unfold centroid. rewrite vsum_shift. unfold nof. rewrite map_length.
   fold (Nof cs). pose proof (Nof_nz cs H) as Hn.
-  destruct (vsum RO cs) as [[a b] d]. red5. tup; field; exact Hn.
+  destruct (vsum RO cs) as [[a b] d]. red5. fold (Nof cs). tup; field; exact Hn.
 Qed.
 Lemma centroid_perm cs cs' : Permutation cs cs' -> centroid RO cs = centroid RO cs'.
 Proof.
@@ -503,7 +503,7 @@ Proof.
             let '(a, b, d) := vsum RO l in let '(mx, my, mz) := m in
             ((a - Nof l * mx) * k, (b - Nof l * my) * k, - ((d - Nof l * mz) * k))).
   { intros [[mx my] mz] l. induction l as [|[[x y] z] l IH].
-    - cbn. tup; ring.
+    - unfold Nof. cbn. tup; ring.
     - cbn [map]. rewrite Nof_cons, !vsum_cons, IH. destruct (vsum RO l) as [[a b] d]. red5. tup; ring. }
   destruct (vsum RO cs) as [[a b] d] eqn:E. red5.
   specialize (G (a * / Nof cs, b * / Nof cs, d * / Nof cs) cs). cbn beta iota in G.
